@@ -54,6 +54,10 @@ impl EvalContext {
         self.vars.set(name, value)
     }
 
+    pub(crate) fn get_var(&self, name: &str) -> Option<i64> {
+        self.vars.get(name)
+    }
+
     pub(crate) fn get(&self, name: &str) -> Option<OutputValue> {
         if let Some(n) = self.vars.get(name) {
             Some(OutputValue::Value(n))
